@@ -4,7 +4,7 @@ import param
 from sx.api import assume, check, cover, untraced, pick, pickbool
 
 PROPERTY = 'C02'
-LABELS = ['C02.raises', 'C02.values', 'C02.refs', 'C02.watchers', 'C02.no_event', 'C02.old_link_alive', 'C02.new_link_absent',
+LABELS = ['C02.override_after_rejected_sync', 'C02.raises', 'C02.values', 'C02.refs', 'C02.watchers', 'C02.no_event', 'C02.old_link_alive', 'C02.new_link_absent',
           'C02.dispatch_state']
 SHADOWED_BY_KNOWN = {'C02.new_link_absent': 'only evaluated for a rejected reference, where the known finding C02-ref-installed-before-validate fails first'}
 EXPLANATION = ("Harness c02.prog: a target with an allow_refs bounded Integer x, a plain y, a constant c and a readonly r; after a "
@@ -121,6 +121,35 @@ def prog(k: int, p1: int, pv1: int, p2: int, pv2: int, rk: int, kind: int, route
             T.x = clsx
 
 
+def resync(rk: int, bad: int, w: int) -> None:
+    """A source update whose propagation to the linked target is rejected (the source assignment raises) must not
+    change how later assignments to the target are treated: a plain value still ends the link."""
+    assume((bad < 0 or bad > 10) and 0 <= w <= 10)
+    rk = pick(rk, 0, 2)
+    with untraced():
+        s0 = S()
+        t = T()
+    t.x = _ref(s0, rk)
+    before = t.x
+    try:
+        s0.v = bad
+        raised = False
+    except (ValueError, TypeError):
+        raised = True
+    info = {'resync': True, 'ref_kind': rk}
+    check('C02.raises', raised, info)
+    check('C02.values', t.x == before, info)
+    t.x = 3
+    try:
+        s0.v = w
+    except (ValueError, TypeError):
+        pass
+    check('C02.override_after_rejected_sync', t.x == 3, info)
+
+
+resync.ranges = lambda consts: dict(rk=(0, 2))
+
+
 class Counter:
     """stateful value generator 1, 2, 3, ..."""
 
@@ -227,6 +256,7 @@ def shards(tier):
                     c.update(p2=0, pv2=0)
                 out.append(dict(name='k%d_r%d_rk%d' % (kind, route, rk), module='harness.c02', fn='prog', consts=c,
                                 budget_s=60 if q else 400))
+    out.append(dict(name='resync', module='harness.c02', fn='resync', consts={}, budget_s=60 if q else 300))
     for level in (0, 1):
         out.append(dict(name='dyn_l%d' % level, module='harness.c02', fn='dyn', consts=dict(level=level), budget_s=60 if q else 300))
     return out
